@@ -28,6 +28,12 @@ func InitGenesis(
 	// Set genesis state
 	maxSupply := data.MaxSupply
 	k.SetMaxSupply(ctx, maxSupply)
+
+	// restore the timestamp of the last minting block, otherwise the first block
+	// after an export/import skips minting as if coinomics had just been activated
+	if !data.PrevBlockTs.IsNil() && data.PrevBlockTs.IsPositive() {
+		k.SetPrevBlockTS(ctx, data.PrevBlockTs)
+	}
 }
 
 // ExportGenesis returns a GenesisState for a given context and keeper.
